@@ -219,6 +219,19 @@ func (vx *Vaxis) NewStyledString(s string, defaultStyle Style) *StyledString {
 					style.Background = IndexColor(15)
 				}
 			}
+		case strings.HasPrefix(s, "\x1b]"):
+			// An OSC string, such as the hyperlinks Encode writes:
+			// skip it up to its terminator (ST or BEL)
+			s = strings.TrimPrefix(s, "\x1b]")
+			i := strings.IndexAny(s, "\x07\x1b")
+			if i < 0 {
+				return ss
+			}
+			if s[i] == '\x1b' {
+				s = strings.TrimPrefix(s[i+1:], "\\")
+			} else {
+				s = s[i+1:]
+			}
 		default:
 			grapheme, s, width, _ = uniseg.FirstGraphemeClusterInString(s, -1)
 			switch {
